@@ -21,6 +21,7 @@ def evTimes (kind ev : String) : List Nat :=
 
 def handle (s : S) : List String → S × String
   | ["new", kind, idle] => ({ st := { idle := idle.toNat?.getD 1 }, kind := kind }, "ok")
+  | ["hang", cs] => (s, s!"specviol a call into the idle handler did not return within 3 s in history {cs} (an event delivered while the handler holds its own lock: the inactive event, the next message or the next callback waits for ever)")
   | ["op", op, t, extra, ev, exc] =>
     match t.toNat? with
     | none => (s, "bad-op")
